@@ -96,15 +96,16 @@ type run struct {
 	w    *hnet.Wallet
 	r    *rand.Rand
 
-	idx        map[common.Hash]*blk
-	book       map[common.Hash]*reward
-	uncleIn    map[common.Hash][]*blk
-	shareRew   map[common.Hash][]*blk
-	watch      map[common.InternalAddress]string // Quai accounts whose every credit source is known
-	contracts  map[[20]byte]*ownerContract       // deployed (or to be deployed) forwarding contracts
-	spentIn    map[string][]*blk                 // outpoint -> blocks whose Qi tx spends it
-	utxoLock   map[string]uint64                 // outpoint of a locked reward/conversion output -> lock height
-	claimsSeen map[common.Hash]bool
+	idx                map[common.Hash]*blk
+	book               map[common.Hash]*reward
+	uncleIn            map[common.Hash][]*blk
+	shareRew           map[common.Hash][]*blk
+	watch              map[common.InternalAddress]string // Quai accounts whose every credit source is known
+	contracts          map[[20]byte]*ownerContract       // deployed (or to be deployed) forwarding contracts
+	spentIn            map[string][]*blk                 // outpoint -> blocks whose Qi tx spends it
+	utxoLock           map[string]uint64                 // outpoint of a locked reward/conversion output -> lock height
+	claimsSeen         map[common.Hash]bool
+	failedClaimDeleted map[string][]*blk // record key -> blocks in which a failed claim tx deleted it (listed C12 finding)
 
 	linear bool // no fork was built on this net so far (database scans describe the only chain)
 	dead   bool
@@ -114,7 +115,7 @@ func newRun(m *mon.M, name string, n *hnet.Net, w *hnet.Wallet, r *rand.Rand) *r
 	return &run{m: m, name: name, n: n, w: w, r: r, idx: map[common.Hash]*blk{}, book: map[common.Hash]*reward{},
 		uncleIn: map[common.Hash][]*blk{}, shareRew: map[common.Hash][]*blk{}, watch: map[common.InternalAddress]string{},
 		contracts: map[[20]byte]*ownerContract{}, spentIn: map[string][]*blk{}, utxoLock: map[string]uint64{},
-		claimsSeen: map[common.Hash]bool{}, linear: true}
+		claimsSeen: map[common.Hash]bool{}, failedClaimDeleted: map[string][]*blk{}, linear: true}
 }
 
 func (x *run) ancestor(b *blk, k uint64) *blk {
@@ -841,6 +842,13 @@ func (x *run) checkLockups(b, parent *blk, pst *state.StateDB, receipts types.Re
 	for _, e := range b.wo.OutboundEtxs() {
 		if e.EtxType() == types.CoinbaseLockupType {
 			outboundClaims[e.OriginatingTxHash()] = append(outboundClaims[e.OriginatingTxHash()], e)
+			// emission side of the claim ETX book (whether the claim was legitimate is judged below)
+			r := x.book[e.Hash()]
+			if r == nil {
+				r = &reward{Kind: "claim", Tx: e}
+				x.book[e.Hash()] = r
+			}
+			r.EmittedIn = append(r.EmittedIn, b)
 		}
 	}
 	uncertain := false
@@ -990,12 +998,6 @@ func (x *run) checkLockups(b, parent *blk, pst *state.StateDB, receipts types.Re
 				if !bytes.Equal(e.To().Bytes(), cl.To[:]) {
 					x.m.Violation("claim-etx-wrong-recipient", fmt.Sprintf("claim ETX pays %x, requested %x", e.To().Bytes(), cl.To), w)
 				}
-				r := x.book[e.Hash()]
-				if r == nil {
-					r = &reward{Kind: "claim", Tx: e}
-					x.book[e.Hash()] = r
-				}
-				r.EmittedIn = append(r.EmittedIn, b)
 				if rec.MaxUnlock > b.num {
 					x.m.AddExtra("claims_paying_rewards_younger_than_their_own_depth", 1)
 					x.m.Extra("example_early_tranche", fmt.Sprintf("claim in block %d of tranche %d (record epoch %d byte %d): newest element would unlock at %d as a plain reward", b.num, rec.Tranche, rec.Epoch, rec.Byte, rec.MaxUnlock))
@@ -1065,6 +1067,17 @@ func (x *run) checkLockups(b, parent *blk, pst *state.StateDB, receipts types.Re
 					}
 				}
 			}
+			if sig == "claim-in-failed-tx-deletes-record" {
+				x.failedClaimDeleted[k] = append(x.failedClaimDeleted[k], b)
+			} else {
+				// was it deleted by such a claim on a branch that is not this block's chain (and never restored by the reorg)?
+				for _, fb := range x.failedClaimDeleted[k] {
+					if !x.onChainOf(fb, b) {
+						sig = "record-deleted-by-failed-claim-on-abandoned-branch-stays-deleted-after-reorg"
+						w["abandoned_block"], w["abandoned_block_number"] = fb.hash.Hex(), fb.num
+					}
+				}
+			}
 			x.m.Violation(sig, fmt.Sprintf("record %s (modelled balance %v, %d elements) is not in the database after block %d", k, mr.Balance, mr.Elements, b.num), w)
 			delete(model, k) // follow the node so that later checks are not masked
 		default:
@@ -1104,6 +1117,58 @@ func (x *run) checkLockups(b, parent *blk, pst *state.StateDB, receipts types.Re
 }
 
 var _ = rand.Int
+
+// finish: on the final canonical chain every reward ETX emitted long ago (at
+// least slack blocks and three prime-order blocks before the head) must have
+// been delivered exactly once ("each reward becomes spendable exactly once").
+func (x *run) finish(slack uint64) {
+	head := x.idx[x.n.Heads()[2].Hash()]
+	if head == nil {
+		return
+	}
+	// prime-order blocks after each height on the head's chain
+	primesAfter := map[uint64]int{}
+	cnt := 0
+	for b := head; b != nil; b = x.idx[b.parent] {
+		primesAfter[b.num] = cnt
+		if b.order == 0 {
+			cnt++
+		}
+	}
+	var hashes []common.Hash
+	for h := range x.book {
+		hashes = append(hashes, h)
+	}
+	sort.Slice(hashes, func(i, j int) bool { return bytes.Compare(hashes[i][:], hashes[j][:]) < 0 })
+	for _, h := range hashes {
+		rec := x.book[h]
+		var em *blk
+		for _, e := range rec.EmittedIn {
+			if x.onChainOf(e, head) {
+				em = e
+			}
+		}
+		if em == nil {
+			continue
+		}
+		n := 0
+		for _, d := range rec.Delivered {
+			if x.onChainOf(d, head) {
+				n++
+			}
+		}
+		old := em.num+slack <= head.num && primesAfter[em.num] >= 3
+		switch {
+		case n == 1:
+			x.m.Eval("reward-etx-delivered-exactly-once:"+rec.Kind, h.Hex())
+		case n == 0 && old:
+			x.m.Violation("reward-etx-never-delivered:"+rec.Kind, fmt.Sprintf("%s ETX %x emitted by block %d is not inbound in any block up to the head %d (%d prime-order blocks later)", rec.Kind, h[:6], em.num, head.num, primesAfter[em.num]),
+				x.wit(em, map[string]any{"etx": etxInfo(rec.Tx), "head": head.hash.Hex(), "head_number": head.num}))
+		case n == 0:
+			x.m.Trivial()
+		}
+	}
+}
 
 func (x *run) debugBlock(b *blk, receipts types.Receipts) {
 	line := fmt.Sprintf("DBG %s blk %d %x parent %x ord %d cb=%x data=%x uncles=%d |", x.name, b.num, b.hash[:4], b.parent[:4], b.order, b.wo.PrimaryCoinbase().Bytes()[:3], b.wo.Data(), len(b.wo.Uncles()))
